@@ -27,7 +27,7 @@ ASSUMPTIONS = [
 ]
 KINDS = ["inst", "operand", "operand", "genreg", "genreg", "indreg", "stackreg", "basereg"]
 MUTATORS = ["none", "none", "none", "prefix-ext", "prefix-ext", "other-member", "wrong-width", "non-member", "swap-names", "last-operand", "unrelated-op", "def-empty", "def-non-member", "def-wrong-width", "case-variant"]
-FLOORS = {"kind=inst": 0.08, "kind=operand": 0.12, "kind=regfam": 0.16, "mut=prefix-ext": 0.06, "expect=found": 0.25, "near-miss": 0.3, "kind=deref-field": 0.06, "kind=deref-operator-capture": 0.04, "deref-keys=permuted": 0.04}
+FLOORS = {"kind=inst": 0.08, "kind=operand": 0.12, "kind=regfam": 0.16, "mut=prefix-ext": 0.06, "expect=found": 0.25, "near-miss": 0.3, "kind=deref-field": 0.06, "kind=deref-operator-capture": 0.04, "kind=many-names": 0.01, "deref-keys=permuted": 0.04}
 
 # operands with prefix / extension relatives (att, norm)
 RELATED = [
@@ -593,8 +593,32 @@ def deref_operator_capture_cases(draw):
     return {"form": "deref-operator-capture", "how": how, "op": op, "pattern": pattern, "listing": L, "spans": spans, "near": how != "bound" or off_shown != off or (third not in (None, pushed))}
 
 
+@st.composite
+def many_names_cases(draw):
+    """'Any number of names': N capture names on the spine (N around 100, where a decimal back-reference number gets a third digit),
+    then a later occurrence of one of them.  Instruction k of the listing is `mov $0x<k>,%rax`; the instruction after the N-th is a copy
+    of instruction j (found iff j is the name referred to) - the verdict is known by construction."""
+    n = draw(st.sampled_from([9, 10, 11, 64, 95, 99, 100, 100, 101, 108, 120, 130]))
+    level = draw(st.sampled_from(["inst", "operand", "operand-two"]))
+    ref = draw(st.sampled_from(sorted({1, 2, min(8, n), min(10, n), n - 1, n, n, n})))
+    shown = ref if draw(st.integers(0, 2)) else draw(st.sampled_from(sorted({1, max(1, ref - 1), min(n, ref + 1), max(1, ref // 10), n} - {ref}) or [ref]))
+    if level == "inst":
+        pattern = [f"&i{k}" for k in range(1, n + 1)] + [f"&i{ref}"]
+    elif level == "operand":
+        pattern = [{"mov": [f"&o{k}", "rax"]} for k in range(1, n + 1)] + [{"mov": [f"&o{ref}"]}]
+    else:
+        pattern = [{"mov": [f"&o{k}", f"&p{k}"]} for k in range(1, n + 1)] + [{"mov": [f"&o{ref}", f"&p{ref}"]}]
+    L = []
+    a = 0x401000
+    for k in list(range(1, n + 1)) + [shown]:
+        L.append([format(a, "x"), "mov", [f"$0x{k:x}", "%rax"], [f"0x{k:x}", "%rax"]])
+        a += 7
+    L.append([format(a, "x"), "ret", [], []])
+    return {"form": "many-names", "n": n, "level": level, "ref": ref, "shown": shown, "pattern": pattern, "listing": L, "spans": {"0": [n + 1]} if shown == ref else {}}
+
+
 def strategy(tier):
-    return st.one_of(cases(), cases(), cases(), cases(), cases(), deref_capture_cases(), deref_operator_capture_cases())
+    return st.one_of(cases(), cases(), cases(), cases(), cases(), cases(), cases(), cases(), cases(), cases(), deref_capture_cases(), deref_capture_cases(), deref_operator_capture_cases(), deref_operator_capture_cases(), many_names_cases())
 
 
 def evaluate(case):
@@ -610,6 +634,13 @@ def evaluate(case):
             ev.tags.append("near-miss")
         ev.nontrivial = exp or near
         ev.sample = {"mut": case["mut"], "pattern": pattern, "stream": stream_sample(L), "expected_found": exp}
+        return ev
+    if case.get("form") == "many-names":
+        spans = {int(k): set(v) for k, v in case["spans"].items()}
+        exp, _, _ = compare(ev, pattern, L, None, None, spans=spans, modes=("list",))
+        ev.tags = ["kind=many-names", f"names={'>=100' if case['n'] * (2 if case['level'] == 'operand-two' else 1) >= 100 else '<100'}", f"mlevel={case['level']}", "expect=found" if exp else "expect=notfound"] + ([] if exp else ["near-miss"])
+        ev.nontrivial = True
+        ev.sample = {"names": case["n"], "level": case["level"], "refers_to": case["ref"], "shown": case["shown"], "expected_found": exp}
         return ev
     if case.get("form") == "deref-operator-capture":
         spans = {int(k): set(v) for k, v in case["spans"].items()}
